@@ -38,6 +38,12 @@ impl IpVersionAddrIter {
         match self {
             Self::V4(next) => {
                 let host = *next;
+                // 192.168.0.0/16 has 16 host bits: past that the address
+                // would wrap around and be handed out a second time.
+                assert!(
+                    host <= u16::MAX as u32,
+                    "simulated subnet 192.168.0.0/16 exhausted"
+                );
                 *next = next.wrapping_add(1);
 
                 let a = (host >> 8) as u8;
@@ -47,6 +53,11 @@ impl IpVersionAddrIter {
             }
             Self::V6(next) => {
                 let host = *next;
+                // fe80::/64 has 64 host bits, see above.
+                assert!(
+                    host <= u64::MAX as u128,
+                    "simulated subnet fe80::/64 exhausted"
+                );
                 *next = next.wrapping_add(1);
 
                 let a = ((host >> 48) & 0xffff) as u16;
